@@ -103,10 +103,12 @@ FT = {
 }
 
 
-def field_ok(ft, combo, keysel, derived):
+def field_ok(ft, combo, keysel, derived, hash_ignore_ok=False):
     """Is the field well typed for every derived trait under the documented source selection?"""
     for t in derived:
         st = M.status(t, combo)
+        if st == "dontcare" and t == "Hash" and hash_ignore_ok and M.flags(combo[4])["ignore"]:
+            st = "accept"
         if st != "accept":
             return False
         kind, attr = M.source(t, combo)
@@ -125,7 +127,7 @@ def field_ok(ft, combo, keysel, derived):
     return True
 
 
-def gen_field(rng, derived, ft=None, plain_p=0.35, allow_generic=False, max_attrs=3):
+def gen_field(rng, derived, ft=None, plain_p=0.35, allow_generic=False, max_attrs=3, hash_ignore_ok=False):
     fts = [k for k in FT if allow_generic or not FT[k].get("generic")]
     combos = M.all_combos()
     for _ in range(400):
@@ -138,7 +140,7 @@ def gen_field(rng, derived, ft=None, plain_p=0.35, allow_generic=False, max_attr
                 continue
         keysel = {a: rng.choice(FT[f]["key"][a]) for a in M.ATTRS}
         bysel = {a: rng.choice(FT[f]["by"][a]) for a in M.ATTRS}
-        if field_ok(f, combo, keysel, derived):
+        if field_ok(f, combo, keysel, derived, hash_ignore_ok):
             nd = rng.choice([2, 3, 3, 4])
             dom = FT[f]["dom"][:]
             rng.shuffle(dom)
@@ -150,7 +152,7 @@ def gen_field(rng, derived, ft=None, plain_p=0.35, allow_generic=False, max_attr
     return None
 
 
-def gen_spec(rng, derived, entry=None, kind=None, max_vals=40, allow_generic=True):
+def gen_spec(rng, derived, entry=None, kind=None, max_vals=40, allow_generic=True, hash_ignore_ok=False, plain_p=0.35):
     kind = kind or rng.choice(["struct", "struct", "enum", "enum", "enum"])
     # hand-written supertrait impls cannot be given bounds that fit every derived companion of a generic
     # type, so generic types are only generated for supertrait-closed derive sets
@@ -163,7 +165,7 @@ def gen_spec(rng, derived, entry=None, kind=None, max_vals=40, allow_generic=Tru
         nf = 0 if style == "unit" else rng.randint(0 if kind == "enum" else 1, 4)
         fields = []
         for _ in range(nf):
-            f = gen_field(rng, derived, allow_generic=generic)
+            f = gen_field(rng, derived, allow_generic=generic, hash_ignore_ok=hash_ignore_ok, plain_p=plain_p)
             if f is None:
                 return None
             fields.append(f)
